@@ -14,6 +14,7 @@ EXPLANATION = (
     "the true edge of `last() == Some(&0)` is NT; the scanner idiom (byte == 0 and index == len-1 both dominate) is NT; `b[..=buf_strlen(b)?]` is NT. A sink reached in state unknown is a violation. "
     "C10.2 the fallible constructors return Err on the `index != len-1` edge of the scanner (interior NUL) and UnixStr::try_from_bytes returns Err when no NUL was found; the const validator dominates the transmute in from_str_checked. "
     "C10.3 field privacy: UnixString.0 / UnixStr.0 are not public, so no safe external code can forge one. "
+    "C10.4 type-level witnesses: UnixString's constructor and bytes are private to rusl, literals with an interior NUL or without terminator are rejected at compile time; "
     "NOT decided: that inputs with several NULs are handled as the caller intends beyond rejection; unsafe constructors (from_ptr, *_unchecked, write_all_sub_paths) are the caller's obligation.")
 ASSUMPTIONS = ["the transfer table is the complete list of byte-vector operations used in these functions; any other mutation makes the state unknown (fail closed)",
                "type invariant: the byte field of an existing UnixStr/UnixString is NUL-terminated (established inductively by this very rule at every sink)"]
@@ -28,6 +29,9 @@ def run(ck, progs, tier):
     for cfgname, prog in progs.items():
         ck.set_config(prog)
         run_one(ck, prog)
+    # type-level witnesses (compile_fail doctests with compiling twins) against the public API of the tree under analysis
+    from ..engine import witness
+    witness.check(ck, ck.repo, "C10", "C10.4")
 
 
 class NT:
